@@ -278,4 +278,48 @@ example : toyAead.OK := by
 
 example : toyCha.OK := ⟨fun _ _ _ n => by simp [toyCha, zeros], fun _ _ => by simp [toyCha, zeros]⟩
 
+
+/-! ## the exact payload range that round-trips (pins the numbers of the recorded finding) -/
+
+/-- `fits` in closed form: stream encrypt-and-MAC / `none` / CBC (8- and 16-byte blocks): payloads of 1..262135
+    bytes; EtM / GCM / chacha20-poly1305: 1..262139 bytes (maxPacket = 262144) -/
+theorem fits_exact (n : Nat) :
+    ((1 ≤ n ∧ n + 1 + streamPadLen n 0 ≤ maxPacket) ↔ (1 ≤ n ∧ n ≤ 262135)) ∧
+    ((1 ≤ n ∧ n + 1 + streamPadLen n 4 ≤ maxPacket) ↔ (1 ≤ n ∧ n ≤ 262139)) ∧
+    ((1 ≤ n ∧ n + gcmPadLen n + 1 ≤ maxPacket) ↔ (1 ≤ n ∧ n ≤ 262139)) ∧
+    ((1 ≤ n ∧ 1 + n + chaPadLen n ≤ maxPacket) ↔ (1 ≤ n ∧ n ≤ 262139)) ∧
+    ((1 ≤ n ∧ cbcEncLen 16 n - 4 ≤ maxPacket) ↔ (1 ≤ n ∧ n ≤ 262135)) ∧
+    ((1 ≤ n ∧ cbcEncLen 8 n - 4 ≤ maxPacket) ↔ (1 ≤ n ∧ n ≤ 262135)) := by
+  have hm : maxPacket = 262144 := rfl
+  have h16 : max 8 16 = 16 := rfl
+  have h8 : max 8 8 = 8 := rfl
+  refine ⟨?_, ?_, ?_, ?_, ?_, ?_⟩
+  · simp only [streamPadLen, hm]; split <;> omega
+  · simp only [streamPadLen, hm]; split <;> omega
+  · simp only [gcmPadLen, hm]; split <;> omega
+  · simp only [chaPadLen, hm]; split <;> omega
+  · simp only [cbcEncLen, hm, h16]; rw [Nat.max_def]; split <;> omega
+  · simp only [cbcEncLen, hm, h8]; rw [Nat.max_def]; split <;> omega
+
+/-! ## non-vacuity: a concrete history through `roundtrip`, `seq_wraps`, and the writer specs -/
+
+/-- a toy EtM stream mode, two payloads, sequence number wrapping from 2^32-1 to 1 -/
+def toyHistory := writeAll (Mode.stream toyStream) ⟨⟨3, []⟩, 4294967295⟩ (zeros 64) [[1, 2, 3], [9]]
+def toyWires : List Bytes := toyHistory.1.filterMap fun x => match x with | .ok b => some b | .error _ => none
+
+example : toyHistory.2.seq = 1 ∧ toyWires.length = 2 ∧
+    (readAll (Mode.stream toyStream) 2 ⟨⟨3, []⟩, 4294967295⟩ toyWires.flatten).1.map (·.1)
+      = [.ok [1, 2, 3], .ok [9]] := by decide +kernel
+
+example : (gcmWrite toyAead ⟨0, [0, 0, 0, 0, 0, 0, 0, 0, 0, 0, 0, 255]⟩ [7] (zeros 32)).toOption.map (fun r => r.2.1.iv)
+    = some [0, 0, 0, 0, 0, 0, 0, 0, 0, 0, 1, 0] := by decide +kernel
+
+example : (cbcRead toyCbc ⟨0, zeros 8⟩ 5
+    ((cbcWrite toyCbc ⟨0, zeros 8⟩ 5 [1, 2, 3] (zeros 32)).toOption.map (·.1) |>.getD [])).res = .ok [1, 2, 3] := by
+  decide +kernel
+
+example : (chaRead toyCha ⟨0, []⟩ 5
+    ((chaWrite toyCha ⟨0, []⟩ 5 [1, 2, 3] (zeros 32)).toOption.map (·.1) |>.getD [])).res = .ok [1, 2, 3] := by
+  decide +kernel
+
 end XC.C25
